@@ -16,7 +16,7 @@ from .. import VERIF, setorder
 if os.environ.get("MC_C12_LEG") != "1":
     setorder.install()           # must precede any import of numba_scfg
 
-from ..families import enum_closed, make_scfg, shards, deviation_closure  # noqa: E402
+from ..families import enum_closed, labelings, make_scfg, set_labeling, shards, deviation_closure  # noqa: E402
 from ..kernel import Chooser, dfs_answers, guarded, shard_map  # noqa: E402
 from ..progs import skeleton_sources  # noqa: E402
 from ..runner import Acc  # noqa: E402
@@ -106,6 +106,15 @@ def _work(args):
             acc.counters[f"graphs[{fam}]"] += 1
             r0 = acc.counters["runs"]
             explore(dump_graph, g, 1, acc, graph_case(g, fam, "JLB", kind="graph"), "restructure")
+            if len(g) >= 4:
+                # the same graph under names whose order interleaves sibling loops / arms (families.labelings "mix")
+                try:
+                    for lab in labelings(len(g), "mix" if len(g) <= 5 else "eo"):
+                        set_labeling(lab)
+                        acc.counters[f"graphs[{fam}~relabelled]"] += 1
+                        explore(dump_graph, g, 1, acc, graph_case(g, fam + "~", "JLB", kind="graph"), "restructure")
+                finally:
+                    set_labeling(None)
             if bound >= 2:
                 # two simultaneous deviations where the instance is small enough (quadratic in the d=1 run count)
                 if acc.counters["runs"] - r0 <= D2_LIMIT:
@@ -135,6 +144,13 @@ def digest_corpus(tier) -> str:
     h = hashlib.sha256()
     for g in graphs:
         h.update(repr(dump_graph(g)).encode())
+        if len(g) >= 4:
+            try:
+                for lab in labelings(len(g), "mix" if len(g) <= 5 else "eo"):
+                    set_labeling(lab)
+                    h.update(repr(dump_graph(g)).encode())
+            finally:
+                set_labeling(None)
     for label, src in progs:
         h.update(repr(dump_source(src)).encode())
         h.update(repr(dump_bytecode(src)).encode())
